@@ -474,7 +474,7 @@ def run(ctx):
         "evaluated on concrete fields (SymPy evaluates 1/tan(pi/2) to 0 = cot(pi/2))")
 
     # 1. specification on concrete fields through the real code (also the search stream)
-    n_per = ctx.pick(4, 14)
+    n_per = ctx.pick(6, 40)
     cases, bad = spec_stream(ctx, n_per)
     for c, r in bad:
         report_spec(ctx, c, r)
@@ -488,7 +488,7 @@ def run(ctx):
 
     # 2. generic run -> tie lemmas; concrete ties
     lemmas, outputs = generic_lemmas(ctx)
-    clem, n_obliv, obliv_bad = concrete_lemmas(ctx, ctx.pick(3, 8))
+    clem, n_obliv, obliv_bad = concrete_lemmas(ctx, ctx.pick(4, 16))
     for ob in obliv_bad:
         ctx.violation(f"C12:oblivious:{ob['sys']}", "operator output on a concrete field differs from the generic output "
             f"instantiated at it: {ob}", {"kind": "broken-tie", "theorem_or_tie": "generic-run adequacy", "input": ob},
